@@ -518,6 +518,26 @@ func checkC06(r *vt.Run) {
 				}
 			}
 		}
+		// attempt-limit histories (seeded/C06-h): with a timeout far away only the attempt limit can end
+		// a planned request whose attempts keep failing - for every initiator (CLI, worker, a worker
+		// that leaves master_transition empty) x every way the histories can make an attempt fail
+		if cfg.MaxAttempts > 0 && cfg.TimeoutS >= 600 {
+			for _, kind := range []string{"fileTo3", "fileFrom1", "workerTo3", "workerNoTransition"} {
+				for _, fail := range []string{"stuckOn", "failChangeOn"} {
+					hist := []string{kind, fail, "tick"}
+					for i := 0; i < cfg.MaxAttempts+3; i++ {
+						hist = append(hist, "adv5", "tick")
+					}
+					envIdx++
+					if r.Mine(envIdx) {
+						cc := c06Case{Cfg: cfg, Hist: hist}
+						r.Crumb(cc)
+						c06Run(r, cc, true)
+						r.Count("attempt_limit_histories")
+					}
+				}
+			}
+		}
 		// b=1 environment deviation: another initiator files a request at every call boundary of a
 		// manager iteration that itself files or starts something
 		for _, hist := range [][]string{{"masterDies", "tick"}, {"masterDies", "adv5", "tick"}, {"tick"}, {"fileFrom1", "tick"}, {"h2dies", "tick"}} {
